@@ -31,6 +31,7 @@ fn main() {
         "c15" => c_flow::run_c15(&mut out, seed, thorough),
         "c10" => c_bus::run(&mut out, seed, thorough),
         "c01" => c_isa::run_c01(&mut out, seed, thorough),
+        "c04" => c_isa::run_c04(&mut out, seed, thorough),
         "c05" => c_mach::run_c05(&mut out, seed, thorough),
         "c07" => c_mach::run_c07(&mut out, seed, thorough),
         "c11" => c_mach::run_c11(&mut out, seed, thorough),
